@@ -934,9 +934,18 @@ func extraDenoms(f []string) []string {
 		return nil
 	}
 	k, _ := strconv.Atoi(f[4])
+	return extraDenomNames(k)
+}
+
+// extraDenomNames: an IBC voucher denomination first, then tok00, tok01, ...
+func extraDenomNames(k int) []string {
 	var out []string
 	for i := 0; i < k && i < 64; i++ {
-		out = append(out, fmt.Sprintf("tok%02d", i))
+		if i == 0 {
+			out = append(out, "ibc/27394FB092D2ECCD56123C74F36E4C1F926001CEADA9CA97EA622B25F41E5EB2")
+		} else {
+			out = append(out, fmt.Sprintf("tok%02d", i-1))
+		}
 	}
 	return out
 }
